@@ -1208,7 +1208,225 @@ fn wake_send_waiters<T>(waiters: &mut LinkedList<SendWaitQueueEntry<T>>) {''',
      'expect': {'C01': ['C01.P.V'], 'C09': ['C09.R2']}},
 ]
 
+ALLP = ['C01','C02','C03','C04','C05','C06','C07','C08','C09','C10','C11','C12','C13','C14','C15','C17','C18','C19','C20']
+
 BENIGN = [
+    {'name': 'benign-mutex-rename-and-match', 'props': ['C01', 'C02', 'C03', 'C04', 'C17'], 'edits': [
+        {'file': 'src/sync/mutex.rs',
+         'old': '''        if let Some(last_waiter) = last_waiter {
+            // Notify the waiter that it can try to lock the mutex again.
+            // The notification gets tracked inside the waiter.
+            // If the waiter aborts it's wait (drops the future), another task
+            // must be woken.
+            last_waiter.state = PollState::Notified;
+
+            let task = &mut last_waiter.task;
+            return task.take();
+        }
+
+        None''',
+         'new': '''        match last_waiter {
+            Some(oldest) => {
+                oldest.state = PollState::Notified;
+                oldest.task.take()
+            }
+            None => None,
+        }'''},
+        {'file': 'src/sync/mutex.rs',
+         'old': '''        let waker = { self.mutex.state.lock().unlock() };
+        if let Some(waker) = waker {
+            waker.wake();
+        }''',
+         'new': '''        let to_wake = { self.mutex.state.lock().unlock() };
+        match to_wake {
+            Some(w) => w.wake(),
+            None => {}
+        }'''}]},
+    {'name': 'benign-mutex-extract-helper-and-reorder', 'props': ['C01', 'C02', 'C03', 'C04'], 'edits': [
+        {'file': 'src/sync/mutex.rs',
+         'old': '''        if self.is_locked {
+            self.is_locked = false;
+            // TODO: Does this require a memory barrier for the actual data,
+            // or is this covered by unlocking the mutex which protects the data?
+            // Wakeup the last waiter
+            self.return_last_waiter()
+        } else {
+            None
+        }
+    }''',
+         'new': '''        if self.is_locked {
+            self.release_and_hand_over()
+        } else {
+            None
+        }
+    }
+
+    fn release_and_hand_over(&mut self) -> Option<Waker> {
+        self.is_locked = false;
+        self.return_last_waiter()
+    }'''},
+        {'file': 'src/sync/mutex.rs',
+         'old': '''                    // Add the task to the wait queue
+                    wait_node.task = Some(cx.waker().clone());
+                    wait_node.state = PollState::Waiting;
+                    self.waiters.add_front(wait_node);''',
+         'new': '''                    // Add the task to the wait queue
+                    wait_node.state = PollState::Waiting;
+                    wait_node.task = Some(cx.waker().clone());
+                    self.waiters.add_front(wait_node);'''}]},
+    {'name': 'benign-semaphore-mirrored-compare-and-wrapper', 'props': ['C01', 'C05', 'C06', 'C07'], 'edits': [
+        {'file': 'src/sync/semaphore.rs',
+         'old': '''                    if self.permits >= wait_node.required_permits {
+                        self.permits -= wait_node.required_permits;
+                        wait_node.state = PollState::Done;''',
+         'new': '''                    if wait_node.required_permits <= self.permits {
+                        self.permits -= wait_node.required_permits;
+                        wait_node.state = PollState::Done;'''},
+        {'file': 'src/sync/semaphore.rs',
+         'old': '''                    if available < last_waiter.required_permits {
+                        return;
+                    }''',
+         'new': '''                    if last_waiter.required_permits > available {
+                        return;
+                    }'''},
+        {'file': 'src/sync/semaphore.rs',
+         'old': '''        // Wakeup the last waiter
+        self.wakeup_waiters();
+    }''',
+         'new': '''        // Wakeup the last waiter
+        self.rewake();
+    }
+
+    fn rewake(&mut self) {
+        self.wakeup_waiters()
+    }'''}]},
+    {'name': 'benign-timer-and-state-mirrored-compare', 'props': ['C13', 'C15', 'C01'], 'edits': [
+        {'file': 'src/timer/timer.rs',
+         'old': '''                if now >= wait_node.expiry {''',
+         'new': '''                if wait_node.expiry <= now {'''},
+        {'file': 'src/channel/state_broadcast.rs',
+         'old': '''        if state_id < self.state_id {
+            Some((self.state_id, val.clone()))''',
+         'new': '''        if self.state_id > state_id {
+            Some((self.state_id, val.clone()))'''}]},
+    {'name': 'benign-mpmc-method-instead-of-free-fn', 'props': ['C01', 'C08', 'C09', 'C10', 'C11'], 'edits': [
+        {'file': 'src/channel/mpmc.rs',
+         'old': '''            self.buffer.push(value);
+
+            // Return the oldest receive waiter
+            Ok(return_oldest_receive_waiter(&mut self.receive_waiters))''',
+         'new': '''            self.buffer.push(value);
+
+            // Return the oldest receive waiter
+            Ok(self.wake_one_receiver())'''},
+        {'file': 'src/channel/mpmc.rs',
+         'old': '''    fn clear(&mut self) {''',
+         'new': '''    fn wake_one_receiver(&mut self) -> Option<Waker> {
+        return_oldest_receive_waiter(&mut self.receive_waiters)
+    }
+
+    fn clear(&mut self) {'''}]},
+    {'name': 'benign-future-poll-if-let-ready', 'props': ['C17', 'C01', 'C14'], 'edits': [
+        {'file': 'src/channel/channel_future.rs',
+         'old': '''        let poll_res =
+            unsafe { channel.receive_or_register(&mut mut_self.wait_node, cx) };
+
+        if poll_res.is_ready() {
+            // A value was available
+            mut_self.channel = None;
+        }
+
+        poll_res
+    }
+}
+
+impl<'a, MutexType, T> FusedFuture for ChannelReceiveFuture<'a, MutexType, T> {''',
+         'new': '''        let poll_res =
+            unsafe { channel.receive_or_register(&mut mut_self.wait_node, cx) };
+
+        if let Poll::Ready(_) = &poll_res {
+            // A value was available
+            mut_self.channel = None;
+        }
+
+        poll_res
+    }
+}
+
+impl<'a, MutexType, T> FusedFuture for ChannelReceiveFuture<'a, MutexType, T> {'''}]},
+    {'name': 'benign-event-forward-drain-and-arm-order', 'props': ['C14', 'C01', 'C17'], 'edits': [
+        {'file': 'src/sync/manual_reset_event.rs',
+         'old': '''            self.waiters.reverse_drain(|waiter| {''',
+         'new': '''            self.waiters.drain(|waiter| {'''},
+        {'file': 'src/sync/manual_reset_event.rs',
+         'old': '''            PollState::Waiting => {
+                // The WaitForEventFuture is already in the queue.
+                // The event can't have been set, since this would change the
+                // waitstate inside the mutex. However the caller might have
+                // passed a different `Waker`. In this case we need to update it.
+                update_waker_ref(&mut wait_node.task, cx);
+                Poll::Pending
+            }
+            PollState::Done => {
+                // We have been woken up by the event.
+                // This does not guarantee that the event is still set. It could
+                // have been reset it in the meantime.
+                Poll::Ready(())
+            }''',
+         'new': '''            PollState::Done => {
+                Poll::Ready(())
+            }
+            PollState::Waiting => {
+                update_waker_ref(&mut wait_node.task, cx);
+                Poll::Pending
+            }'''}]},
+    {'name': 'benign-unrelated-additions', 'props': ALLP, 'edits': [
+        {'file': 'src/sync/semaphore.rs',
+         'old': '''    /// Returns the amount of permits that are available on the semaphore
+    pub fn permits(&self) -> usize {
+        self.state.lock().permits()
+    }
+}
+
+// Export a non thread-safe version using NoopLock''',
+         'new': '''    /// Returns the amount of permits that are available on the semaphore
+    pub fn permits(&self) -> usize {
+        self.state.lock().permits()
+    }
+
+    /// Returns whether no permits are currently available
+    pub fn is_exhausted(&self) -> bool {
+        self.permits() == 0
+    }
+}
+
+// Export a non thread-safe version using NoopLock'''},
+        {'file': 'src/channel/mpmc.rs',
+         'old': '''    /// Closes the channel.
+    /// All pending and future send attempts will fail.
+    /// Receive attempts will continue to succeed as long as there are items
+    /// stored inside the channel. Further attempts will fail.
+    pub fn close(&self) -> CloseStatus {
+        self.inner.lock().close()
+    }
+}
+
+impl<MutexType: RawMutex, T, A> ChannelSendAccess<T>''',
+         'new': '''    /// Closes the channel.
+    /// All pending and future send attempts will fail.
+    /// Receive attempts will continue to succeed as long as there are items
+    /// stored inside the channel. Further attempts will fail.
+    pub fn close(&self) -> CloseStatus {
+        self.inner.lock().close()
+    }
+
+    /// Returns whether the channel had been closed
+    pub fn is_closed(&self) -> bool {
+        self.inner.lock().is_closed
+    }
+}
+
+impl<MutexType: RawMutex, T, A> ChannelSendAccess<T>'''}]},
     {'name': 'benign-oneshot-mem-replace', 'file': 'src/channel/oneshot.rs',
      'old': '''                let maybe_val = self.value.take();''',
      'new': '''                let maybe_val = core::mem::replace(&mut self.value, None);''',
